@@ -136,7 +136,7 @@ def gen_precip(seed, i):
     solid, ions, lk = r.choice(P.SALTS)
     names = list(ions) + [solid]
     r.shuffle(names)
-    ksp = 10 ** (lk + r.uniform(-1.5, 1.5))
+    ksp = 10 ** (lk + r.uniform(-6.0, 1.5))      # down to realistic solubility products (AgCl 1.8e-10)
     # the same physical system written as dissolution  solid = ions (K = Ksp)  or as precipitation
     # ions = solid (K = 1/Ksp): the switching conditions of chempy branch on the side of the solid
     orient = r.choice(["diss", "prec"])
@@ -151,18 +151,8 @@ def gen_precip(seed, i):
             v = 0.0
         c0.append(v)
     kwargs = r.choice([{}, {"rref_preserv": True, "tol": 1e-12}])
-    # chempy's "no precipitate" sub-system (stoichiometry -precipitate_stoich, K = small) is only meaningful
-    # with the solid on the reactant side: written the other way round every chain ends in pyneqsys'
-    # Exception("Solving failed, conditional_maxiter reached") whenever no solid is left at equilibrium.
-    # The precipitation spelling is therefore only generated when solid must remain (ion product of the
-    # completely dissolved system >= 1.5 Ksp), which is what reaches the second branch of _fw_cond.
-    if orient == "prec":
-        ipd = 1.0
-        cs = c0[names.index(solid)]
-        for ion, nu_ in ions.items():
-            ipd *= (c0[names.index(ion)] + nu_ * cs) ** nu_
-        if ipd < 1.5 * ksp:
-            orient, K = "diss", ksp
+    # (until the repairs F-C08e/g the precipitation spelling was only generated when solid must remain: chempy's "no precipitate"
+    # sub-system read 1/[solid] = small for a solid on the product side; both spellings are generated for every state now)
     return {"kind": "precip", "id": "p%d" % i, "names": names, "solid": solid, "orient": orient, "K": [K], "c0": c0,
             "kwargs": kwargs}
 
